@@ -660,3 +660,30 @@ func init() {
 		return fmt.Sprintf("%x", b)
 	})
 }
+
+// ---- proof of work: an uninterpreted predicate of the header hash ----
+
+func (i *interpreter) powOK(hdr structure) value {
+	st := i.p.st()
+	h := i.concatBytes(i.hashUF("blk", i.serializeHeader(hdr)))
+	return simplify(st.Apply("P_pow", BoolSort, h))
+}
+
+func init() {
+	reg("github.com/btcsuite/btcd/blockchain.checkProofOfWork", func(fr *frame, a []value) value {
+		// func checkProofOfWork(header *wire.BlockHeader, powLimit *big.Int, flags BehaviorFlags) error
+		p := ptrArg(a[0])
+		ok := fr.i.powOK((*p).(structure))
+		var good bool
+		switch o := ok.(type) {
+		case bool:
+			good = o
+		case *Term:
+			good = fr.i.p.branch(o, "proof of work")
+		}
+		if good {
+			return iface{}
+		}
+		return fr.i.newError("vp: proof of work check failed")
+	})
+}
